@@ -335,6 +335,53 @@ pub fn run(tier: &str) -> i32 {
         all.merge(dacc);
     }
 
+    // ---- family (i): a token embedded in a claim and parsed from inside a validator (a rule for an `act` /
+    //      delegation claim): authentic, tampered and junk embedded tokens of the same and of another protocol
+    {
+        use crate::adapter::{PEvent, POp, Verdict};
+        let units: Vec<(Proto, Layer)> = Proto::ALL.iter().flat_map(|p| [Layer::Generic, Layer::Prelude].into_iter().map(move |l| (*p, l))).collect();
+        let accs = par_units(&units, |(p, l)| {
+            let mut acc = Acc::default();
+            let key = domains::key_pool(*p)[0].clone();
+            let seed = if p.is_local() { domains::seeds(*p)[2].clone() } else { vec![] };
+            for q in [*p, Proto::V4L, Proto::V2P] {
+                let qkey = domains::key_pool(q)[0].clone();
+                let qseed = if q.is_local() { domains::seeds(q)[1].clone() } else { vec![] };
+                let Out::Ok(inner) = adapter::core_issue(q, &qkey.sk, &qseed, "{\"sub\":\"actor\"}", None, None) else { continue };
+                let mut tampered = inner.clone();
+                let last = tampered.pop().unwrap_or('A');
+                tampered.push(if last == 'A' { 'B' } else { 'A' });
+                for (iname, itok) in [("authentic", inner.clone()), ("tampered", tampered), ("junk", "x.y.z".to_string()), ("empty", String::new())] {
+                    let payload = serde_json::json!({"act": itok, "data": "x"}).to_string();
+                    let Out::Ok(outer) = adapter::core_issue(*p, &key.sk, &seed, &payload, None, None) else { continue };
+                    for inner_layer in [Layer::Generic, Layer::Prelude] {
+                        adapter::set_verdict(5, Verdict::ParseEmbedded { proto: q, layer: inner_layer, key: qkey.pk.clone() });
+                        let ev = adapter::parse_history(*p, *l, false, &[key.pk.clone()], &[outer.clone()], &[POp::Validate("act".into(), 5), POp::Parse(0, 0)]);
+                        adapter::reset_verdicts();
+                        let _ = adapter::take_calls();
+                        acc.executions += 1;
+                        acc.impl_calls += 1;
+                        acc.choice_points += 1;
+                        acc.see(&(p.name(), l.name(), q.name(), iname, inner_layer.name()));
+                        match ev.last() {
+                            Some(PEvent::Parsed(Out::Panic(loc), _)) => acc.violate(
+                                format!("C09|{}/{}|nested-parse|panic", p.name(), l.name()),
+                                format!("a validator for the claim `act` parses the embedded {} {} token at the {} layer: the outer parse panicked ({})", iname, q.name(), inner_layer.name(), loc),
+                                json!({"kind": "nested", "outer": outer, "proto": p.name(), "layer": l.name()}),
+                            ),
+                            Some(PEvent::Parsed(o, _)) => acc.bump(&format!("nested-parse:{}:{}", iname, if o.is_ok() { "ok" } else { "err" })),
+                            _ => acc.bump("nested-parse:no-event"),
+                        }
+                    }
+                }
+            }
+            acc
+        });
+        let mut n = Acc::merge_all(accs);
+        n.sample(json!({"family": "i-nested-parse-inside-validator", "inputs": n.executions}));
+        all.merge(n);
+    }
+
     // ---- family (f): Key::<N>::try_from(&str)
     let mut kacc = Acc::default();
     for s in hex_inputs() {
